@@ -229,6 +229,24 @@ def handle (toks : List String) : String :=
       | some c => "wf=" ++ b01 (wfChain c) ++ " " ++ showR (fun c => showVal (paramsToDict c)) (paramsFromJson fuel (paramsToJson c))
       | none => "bad-op"
     | _, _ => "bad-op"
+  | "paramsops" :: fuel :: rest =>
+    -- L2: chain, list of operations [level, op, name (, value)] applied before the round trip
+    match fuel.toNat?, parseVal rest with
+    | some fuel, some (.list [cv, .list opsv], []) =>
+      let ops : Option (List (Nat × POp)) := opsv.mapM (fun o => match o with
+        | .list [.int l, .str "set", .str k, v] => some (l.toNat, POp.set k v)
+        | .list [.int l, .str "remove", .str k] => some (l.toNat, POp.remove k)
+        | .list [.int l, .str "mark", .str k] => some (l.toNat, POp.mark k)
+        | .list [.int l, .str "unmark", .str k] => some (l.toNat, POp.unmark k)
+        | _ => none)
+      match chainOfVal cv, ops with
+      | some c, some ops =>
+        match applyOps c ops with
+        | .error e => "ops " ++ showErr e
+        | .ok c' => "wf=" ++ b01 (wfChain c') ++ " " ++ "tree=" ++ showTree (paramsToJson c') ++ " loaded=" ++
+            showR (fun c => showVal (paramsToDict c)) (paramsFromJson fuel (paramsToJson c'))
+      | _, _ => "bad-op"
+    | _, _ => "bad-op"
   | "paramsenc" :: rest =>
     match parseVal rest with
     | some (v, []) =>
